@@ -57,6 +57,8 @@ func ZeroValueOf(typeExpr ast.Expr, typ types.Type) ast.Expr {
 			zv = &ast.BasicLit{Kind: token.STRING, Value: `""`}
 		case info&types.IsBoolean != 0:
 			zv = &ast.Ident{Name: "false"}
+		default:
+			return nil
 		}
 		if isDefaultLiteralType(typ) {
 			return zv
